@@ -46,15 +46,16 @@ def _record(item):
     import kneeliverse.convex_hull as ch
     cid, P, knees, linkage, t, mode = item
     P = np.asarray(P, float)
+    Pcall = P.astype(np.int64) if np.all(P == np.floor(P)) and cid.startswith("i") else P     # integer-dtype curve
     knees = np.array(knees, dtype=int)
     link = getattr(clustering, linkage)
     if mode == "corner":
-        out, val, _ = monitor.call(pp.filter_clusters_corners, (P, knees, link, t), budget=200000, wall=30)
+        out, val, _ = monitor.call(pp.filter_clusters_corners, (Pcall, knees, link, t), budget=200000, wall=30)
     else:
-        out, val, _ = monitor.call(pp.filter_clusters, (P, knees, link, t, kr.ClusterRanking(mode)), budget=200000, wall=30)
+        out, val, _ = monitor.call(pp.filter_clusters, (Pcall, knees, link, t, kr.ClusterRanking(mode)), budget=200000, wall=30)
     case = {"id": cid, "mode": mode, "outcome": out, "knees": [int(k) for k in knees], "result": [],
             "lab": [], "score": [], "hullSpan": []}
-    meta = {"points": P.tolist(), "knees": case["knees"], "linkage": linkage, "t": t, "mode": mode}
+    meta = {"points": P.tolist(), "knees": case["knees"], "linkage": linkage, "t": t, "mode": mode, "cid": cid}
     if out == "returned":
         case["result"] = [int(v) for v in np.asarray(val).tolist()]
     else:
@@ -106,7 +107,16 @@ def inputs(ctx):
     cs = [curves.random_curve(rng, 8, 80) for _ in range(60 if ctx.quick else 500)]
     cs += [P for P in curves.adversarial() if len(P) >= 8]
     cs += curves.trace_windows(rng, 4 if ctx.quick else 40, 20, 80, names=("web0_reduced.csv", "usr0.csv", "web2.csv"))
-    for P in cs:
+    ints = []
+    for _ in range(20 if ctx.quick else 150):       # integer-valued curves, passed to the library as int64 arrays
+        n = rng.randint(10, 60)
+        x = np.cumsum([rng.randint(1, 3) for _ in range(n)])
+        y = np.array(sorted([rng.randint(0, 400) for _ in range(n)], reverse=True))
+        for j in rng.sample(range(1, n - 1), min(n - 2, 3)):
+            y[j] += rng.randint(1, 15)             # small bumps
+        ints.append(curves.mk(x, y))
+    for P in cs + ints:
+        isint = any(P is q for q in ints)
         n = len(P)
         interior = list(range(1, n - 1))
         subsets = []
@@ -124,7 +134,7 @@ def inputs(ctx):
                     subsets.append(sorted(rng.sample(interior, size)))
         for kn in subsets:
             for _ in range(3):
-                items.append(("k%d" % k, P.tolist(), kn, rng.choice(LINKAGES), rng.choice([0.05, 0.1, 0.2, 0.5]), rng.choice(MODES)))
+                items.append(("%s%d" % ("i" if isint else "k", k), P.tolist(), kn, rng.choice(LINKAGES), rng.choice([0.05, 0.1, 0.2, 0.5]), rng.choice(MODES)))
                 k += 1
     return items
 
@@ -176,7 +186,7 @@ def run(ctx):
         ctx.count((m["points"], m["knees"], m["linkage"], m["t"], m["mode"]), multi)
     for cid, vs in rej.items():
         m = meta[cid]
-        ctx.violation(vs[0][0], {"points": m["points"], "knees": m["knees"], "linkage": m["linkage"], "t": m["t"], "mode": m["mode"]},
+        ctx.violation(vs[0][0], {"points": m["points"], "knees": m["knees"], "linkage": m["linkage"], "t": m["t"], "mode": m["mode"], "cid": m["cid"]},
                       {"verdict": vs[0], "error": m.get("error")}, match="%s:%s" % (vs[0][0], m["mode"]))
     sm = next(c for c in cases if len(set(c["lab"])) < len(c["lab"]) and len(c["knees"]) <= 6)
     ctx.sample({"binding": "T", "call": {k: v for k, v in meta[sm["id"]].items() if k != "points"}, "case": sm})
@@ -184,7 +194,7 @@ def run(ctx):
 
 def replay(ctx, obj):
     c = obj["case"]
-    case, m = _record(("replay", c["points"], c["knees"], c["linkage"], c["t"], c["mode"]))
+    case, m = _record((c.get("cid", "replay"), c["points"], c["knees"], c["linkage"], c["t"], c["mode"]))
     rej = ctx.trace("Trace_Cluster", [case])
     for cid, vs in rej.items():
         ctx.violation(vs[0][0], c, {"verdict": vs[0], "error": m.get("error")})
